@@ -347,3 +347,80 @@ theorem parseMediaType_field (k : Bytes) (h : ∀ c ∈ k, (c == 13) = false ∧
   · simp [dupConflict]
 
 end Req.Multipart
+
+namespace Req.Multipart
+open Req.Proto Req.Ascii
+
+/-! ### the request's own Content-Type: `multipart/form-data; boundary=…` -/
+
+/-- `parseMediaType_formData` for an arbitrary (already lower-case, valid) type. -/
+theorem parseMediaType_typed (t params : Bytes) (ps : List (Bytes × Bytes))
+    (ht1 : lower (((t.reverse.dropWhile isBlank).reverse).dropWhile isBlank) = t)
+    (ht2 : validType t = true) (ht3 : ∀ x ∈ t, (fun c : UInt8 => c != 59) x = true)
+    (hstart : params = [] ∨ ∃ r, params = 59 :: r)
+    (hp : parseParams ((t ++ params).length + 1) params = .ok ps)
+    (hstar : ps.any (fun p => p.1.contains 42) = false) (hdup : dupConflict ps = false) :
+    parseMediaType (t ++ params) = .ok (t, ps) := by
+  have hbase : (t ++ params).takeWhile (fun c => c != 59) = t := by
+    rcases hstart with rfl | ⟨r, rfl⟩
+    · simpa using takeWhile_all _ _ ht3
+    · exact takeWhile_append_stop _ _ _ _ ht3 (by decide)
+  have hrest : (t ++ params).dropWhile (fun c => c != 59) = params := by
+    rcases hstart with rfl | ⟨r, rfl⟩
+    · simpa using dropWhile_all _ _ ht3
+    · exact dropWhile_append_stop _ _ _ _ ht3 (by decide)
+  unfold parseMediaType
+  simp only [hbase, hrest, ht1, ht2, hp, hstar, hdup]
+  simp
+
+/-- A quoted-string without quote, backslash, CR, LF reads back as itself. -/
+theorem cq_plain (s r : Bytes)
+    (h : ∀ c ∈ s, (c == 34) = false ∧ (c == 92) = false ∧ (c == 13) = false ∧ (c == 10) = false) :
+    consumeQuoted (s ++ 34 :: r) = some (s, r) := by
+  induction s with
+  | nil => simp [cq_quote]
+  | cons c cs ih =>
+    obtain ⟨h1, h2, h3, h4⟩ := h c (by simp)
+    rw [List.cons_append, cq_lit c _ h1 h2 h3 h4, ih (fun x hx => h x (List.mem_cons_of_mem _ hx))]
+    simp
+
+/-- One step of `parseParams` over `; key=token` at the end of the value. -/
+theorem parseParams_step_token (fuel : Nat) (k tok : Bytes)
+    (hk : k ≠ []) (hkt : ∀ x ∈ k, isTokenChar x = true)
+    (ht : tok ≠ []) (htt : ∀ x ∈ tok, isTokenChar x = true) :
+    parseParams (fuel + 2) ([59, 32] ++ k ++ [61] ++ tok) = .ok [(lower k, tok)] := by
+  obtain ⟨k0, ks, rfl⟩ := List.exists_cons_of_ne_nil hk
+  obtain ⟨t0, ts, rfl⟩ := List.exists_cons_of_ne_nil ht
+  have hb0 : isBlank k0 = false := token_not_blank k0 (hkt k0 (by simp))
+  have ht0 : isTokenChar t0 = true := htt t0 (by simp)
+  have hbt : isBlank t0 = false := token_not_blank t0 ht0
+  have ht34 : t0 ≠ 34 := by
+    intro e; subst e; exact absurd ht0 (by decide)
+  have hshape : ([59, 32] ++ (k0 :: ks) ++ [61] ++ (t0 :: ts) : Bytes)
+      = 59 :: 32 :: ((k0 :: ks) ++ 61 :: (t0 :: ts)) := by simp
+  rw [hshape]
+  conv => lhs; rw [parseParams.eq_def]
+  have hs1 : skipWs (59 :: 32 :: ((k0 :: ks) ++ 61 :: (t0 :: ts)))
+      = 59 :: 32 :: ((k0 :: ks) ++ 61 :: (t0 :: ts)) := by
+    simp [skipWs, List.dropWhile, show isBlank 59 = false by decide]
+  have hs2 : skipWs (32 :: ((k0 :: ks) ++ 61 :: (t0 :: ts))) = (k0 :: ks) ++ 61 :: (t0 :: ts) := by
+    simp [skipWs, List.dropWhile, show isBlank 32 = true by decide, hb0]
+  have htk : ((k0 :: ks) ++ 61 :: (t0 :: ts)).takeWhile isTokenChar = k0 :: ks :=
+    takeWhile_append_stop _ _ _ _ hkt (by decide)
+  have hdk : ((k0 :: ks) ++ 61 :: (t0 :: ts)).dropWhile isTokenChar = 61 :: (t0 :: ts) :=
+    dropWhile_append_stop _ _ _ _ hkt (by decide)
+  have hs3 : skipWs (61 :: (t0 :: ts)) = 61 :: (t0 :: ts) := by
+    simp [skipWs, List.dropWhile, show isBlank 61 = false by decide]
+  have hs4 : skipWs (t0 :: ts) = t0 :: ts := by simp [skipWs, List.dropWhile, hbt]
+  have htv : (t0 :: ts).takeWhile isTokenChar = t0 :: ts := takeWhile_all _ _ htt
+  have hdv : (t0 :: ts).dropWhile isTokenChar = [] := dropWhile_all _ _ htt
+  simp only [hs1, hs2, htk, hdk, hs3, hs4, show ((59 : UInt8) != 59) = false by decide,
+    show (k0 :: ks).isEmpty = false from rfl, Bool.false_eq_true, ↓reduceIte]
+  split
+  next r4 heq =>
+    exfalso
+    injection heq with h1 _
+    exact ht34 h1
+  next => simp [htv, hdv, parseParams_nil]
+
+end Req.Multipart
